@@ -494,7 +494,7 @@ Print Assumptions C01_lost_name_check_refuted.
 (* 9. storage READ faults inside the model (Engine/OpsR.v): the four operations with, at every
    storage read, the error handler the Go code has at that call site.  Run/RunC01.v evaluates these
    programs on every history the harness ran with a read fault injected into the real driver. *)
-From Helm Require Import Engine.OpsR Engine.OpsRProofs Engine.OpsRLedger Engine.OpsRClean.
+From Helm Require Import Engine.OpsR Engine.OpsRProofs Engine.OpsRLedger Engine.OpsRClean Engine.OpsRWrite.
 From Helm Require Engine.Skeleton Engine.SkeletonModel Engine.SkeletonRead Engine.SkeletonExpected Gen.ActionSkeleton.
 
 (* without a read fault they ARE the operations every theorem above speaks about: the same run
@@ -586,6 +586,22 @@ Theorem C01_prune_read_fault_changes_nothing :
     res = run K kh dresp f (storage_create r (S m)) s \/ res = (s, SFail).
 Proof. exact prune_read_fault. Qed.
 Print Assumptions C01_prune_read_fault_changes_nothing.
+
+
+(* a failing read AND a failing storage write in one operation (the transfer principle holds for every fault plan
+   without a crash point): under H1 in its narrow form - the failing write is not one that marks a revision superseded -
+   asked of the fault-free program for every crash point, the ledger clauses hold again; the handler's own write
+   (rollback's last lookup: record the revision failed) may be the failing one *)
+Theorem C01_read_and_write_fault_ledger :
+  forall (K : Type) (kh : forall e : eff, K -> K * resp e * list kev) (dresp : forall e, resp e)
+         (rn ns : string) (o : op) (n : nat) (f : sfaults) (l : list release) (k : K),
+    crash f = None -> honest dresp ->
+    fail_hits_only K kh dresp rn ns fail_ok2 o f l k ->
+    (forall m, fail_hits_only K kh dresp rn ns fail_ok2 o (fc f m) l k) ->
+    NoDup (revs l) -> ndep l <= 1 -> h2_op o l ->
+    ledger_ok (fst (fst (fst (run_opRF K kh dresp rn ns o n f l k)))).
+Proof. exact read_and_write_fault_ledger. Qed.
+Print Assumptions C01_read_and_write_fault_ledger.
 
 (* and along every history whose operations carry a crash point or a read fault *)
 Theorem C01_read_or_crash_history_ledger :
